@@ -15,7 +15,7 @@ import (
 
 type C14Case struct {
 	U       Universe `json:"u"`
-	Canon   string   `json:"canon"`             // canonical rendering of the program ("" for soup cases)
+	Canon   string   `json:"canon"` // canonical rendering of the program ("" for soup cases)
 	Infix   bool     `json:"infix,omitempty"`
 	Mask    int      `json:"mask"`
 	Layouts []string `json:"layouts,omitempty"` // re-layouts of Canon (same tokens, other white space / comments)
@@ -89,7 +89,7 @@ func genC14(t *rapid.T) C14Case {
 		Depth:    rapid.IntRange(1, depthMax(5, 7)).Draw(t, "depth"),
 		MaxArity: rapid.IntRange(2, 4).Draw(t, "maxarity"),
 		Failing:  rapid.IntRange(0, 3).Draw(t, "failing") == 0,
-		Custom:   true, Consts: true, Aliases: true,
+		Custom:   true, Consts: true, Aliases: true, StrBias: true,
 	}}
 	c := C14Case{Infix: rapid.IntRange(0, 3).Draw(t, "infix") == 0, Mask: rapid.IntRange(0, 15).Draw(t, "mask"), DirMask: -1}
 	var tree *m.Node
@@ -197,7 +197,9 @@ func checkC14(c C14Case, r *Rec) *Violation {
 			}
 		}
 		if special && len(toks) >= 2 {
-			r.NonTrivial("soup|"+c.Soup, func() interface{} { return map[string]interface{}{"soup": clip(c.Soup, 200), "formatted": clip(formatted, 200)} })
+			r.NonTrivial("soup|"+c.Soup, func() interface{} {
+				return map[string]interface{}{"soup": clip(c.Soup, 200), "formatted": clip(formatted, 200)}
+			})
 		}
 		return nil
 	}
